@@ -334,8 +334,17 @@ class _Info:
 
 def _schedule(name):
     import kappaschedules as ks
+    if name.startswith("const:"):
+        return ks.ConstantSchedule(value=float(name[6:]))
     return {"linear": ks.LinearIncreasingSchedule, "cosine": ks.CosineIncreasingSchedule,
             "lindec": ks.LinearDecreasingSchedule}[name]()
+
+
+def _schedule_arg(name):
+    """what is handed to KDScheduledTransform: a schedule object, or a plain number (a constant strength - also 0 / 0.0)"""
+    if name.startswith("const:"):
+        return float(name[6:]) if "." in name[6:] else int(name[6:])
+    return _schedule(name)
 
 
 def _budget_kwargs(spec):
@@ -361,11 +370,11 @@ def check_scheduled_sim(spec):
     W, B, T = spec["W"], spec["B"], spec["T"]
     kw = _budget_kwargs(spec)
     probe = PT()
-    template = KDScheduledTransform(probe, schedule=_schedule(spec["schedule"]))
+    template = KDScheduledTransform(probe, schedule=_schedule_arg(spec["schedule"]))
     prefix = template.ctx_key
     # 'shared': a second scheduled wrapper with another schedule holds the very same transform object and is called in
     # alternation - what a wrapper applies to a sample is its own schedule's value, whatever the object was scaled to in between
-    other_name = {"linear": "lindec", "cosine": "lindec", "lindec": "cosine"}[spec["schedule"]]
+    other_name = {"linear": "lindec", "cosine": "lindec", "lindec": "cosine"}.get(spec["schedule"], "linear")
     other = KDScheduledTransform(probe, schedule=_schedule(other_name)) if spec.get("shared") else None
     if spec["nest"] and other is None:
         template = KDComposeTransform([template])
@@ -498,7 +507,7 @@ def _leaf_facet(name):
 SCHED = st.fixed_dictionaries({"W": st.integers(1, 4), "B": st.integers(1, 5), "T": st.integers(1, 24),
                                "budget": st.sampled_from(["updates", "samples", "epochs"]), "epochs": st.integers(1, 4),
                                "world": st.integers(1, 3), "drop_last": st.booleans(), "extra": st.integers(0, 9),
-                               "schedule": st.sampled_from(["linear", "cosine", "lindec"]), "nest": st.booleans(),
+                               "schedule": st.sampled_from(["linear", "cosine", "lindec", "const:0", "const:0.0", "const:0.5", "const:1"]), "nest": st.booleans(),
                                "shared": st.booleans(), "peek": st.sampled_from([0, 0, 1, 2, 5])})
 
 FACETS = [_leaf_facet(n) for n in SCALABLE] + [
